@@ -11,7 +11,7 @@
    for arbitrary stream ids.  A label that is not enabled is a no-op, so every list of labels is a
    history - writes, Reserve and flushes AFTER a stream's Close included.  [init f g n qc]: f = true is the
    model of linkedBuffer.recycle() that also cleans the pinned list (f = false: the code before a234a74);
-   g = true the model of write operations that refuse to allocate for a closed stream (g = false: no state
+   g = true the model of a write side that takes no shared memory for a closed stream (g = false: no state
    check in linkedBuffer).  Which variant /repo is, is decided by Gen/SwitchC09.v, regenerated from
    buffer.go on every run; the headline theorems are stated for that variant. *)
 From Coq Require Import List ZArith Lia Bool Arith Permutation.
@@ -100,7 +100,7 @@ Example C09_late_data_interleaving :
   (length (cfree s2), nobjs s2, tbl s2 (key true 1), pslots (opend (objs s2 2)), ocpc (objs s2 1)) = (3%nat, 3%nat, Some 2%nat, [1], 6%nat).
 Proof. vm_compute. split; reflexivity. Qed.
 
-(* regression, about the code WITHOUT the state check in the write operations: a WriteBytes after the local
+(* regression, about the code WITHOUT the state check on the write side: a WriteBytes after the local
    Close allocates a slice that nothing returns unless the user also flushes *)
 Example C09_write_after_close_leaked :
   ~ (forall n qc h,
